@@ -631,6 +631,7 @@ type c16Cli struct {
 	stopRead       bool
 	recv           map[string]int
 	pingResp       int
+	pingSent       int
 	acks           map[uint16]bool
 	inflight       map[uint16]*c16Op
 	nextID         uint16
@@ -998,6 +999,9 @@ func (h *c16H) newCli(name, id string, idx int, spec c16Conn) *c16Cli {
 // (keep-alive deadlines): timers of production goroutines that expire at the
 // same instant wake them in an irreproducible order.
 func (c *c16Cli) send(p packets.ControlPacket) error {
+	if _, ok := p.(*packets.PingreqPacket); ok {
+		c.pingSent++
+	}
 	var buf bytes.Buffer
 	if err := p.Write(&buf); err != nil {
 		return err
@@ -1309,12 +1313,12 @@ func (h *c16H) doStep(c *c16Cli, s c16Step) bool {
 			return h.waitFor(c, s.Op+"ack", func() bool { return c.acks[id] })
 		}
 	case "ping":
-		n := c.pingResp
 		if err := c.send(packets.NewControlPacket(packets.Pingreq)); err != nil {
 			return false
 		}
+		n := c.pingSent
 		if !s.NoWait {
-			return h.waitFor(c, "pingresp", func() bool { return c.pingResp > n })
+			return h.waitFor(c, "pingresp", func() bool { return c.pingResp >= n })
 		}
 	}
 	return true
@@ -1548,7 +1552,12 @@ func (h *c16H) deleterRole() string {
 	}
 	arg = strings.TrimSuffix(strings.TrimSpace(arg), "?")
 	cur := h.b.clients[c16ID]
-	if cur == nil || fmt.Sprintf("%p", cur) == arg {
+	switch {
+	case cur == nil:
+		// a first, regular teardown still finds itself registered
+		// (removeClient comes after closeAndDelSession)
+		return "unregistered"
+	case fmt.Sprintf("%p", cur) == arg:
 		return "owner"
 	}
 	return "superseded"
@@ -1582,12 +1591,33 @@ func (h *c16H) storedHistory(f string, want bool) string {
 			seenOther = true
 		}
 	}
+	// a snapshot with the right state reached the store only after the lookup:
+	// it was late, not overtaken
+	for i := mark; i < len(h.st.putLog); i++ {
+		if has(i) == want {
+			return "lag"
+		}
+	}
 	// the last snapshot before the lookup has the wrong state although a
 	// snapshot with the right one had arrived before it
 	if seenWant && seenOther {
 		return "stale"
 	}
 	return "lag"
+}
+
+// unregisteredDeleted / supersededDeleted: an existing store record of the id
+// was deleted by a connection that was not registered any more / that had been
+// replaced by a newer registered connection.
+func (h *c16H) unregisteredDeleted() bool { return h.deletedBy("broker(unregistered)") }
+func (h *c16H) supersededDeleted() bool   { return h.deletedBy("broker(superseded)") }
+func (h *c16H) deletedBy(prefix string) bool {
+	for _, d := range h.st.delLog {
+		if strings.HasPrefix(d, prefix) && strings.Contains(d, "existed=true") {
+			return true
+		}
+	}
+	return false
 }
 
 // brokerDeleted: the broker itself deleted the (existing) store record of the
@@ -1668,13 +1698,16 @@ func (h *c16H) probe() (map[string]string, bool) {
 	return out, ok
 }
 
+// barrier: PINGRESPs come back in the order of the PINGREQs, so the barrier
+// holds once every ping sent so far has been answered (a scripted no_wait ping
+// may still be unanswered: its late PINGRESP must not be taken for ours).
 func (h *c16H) barrier(c *c16Cli) bool {
-	n := c.pingResp
 	if err := c.send(packets.NewControlPacket(packets.Pingreq)); err != nil {
 		h.logf("%s: barrier ping write failed: %v", c.name, err)
 		return false
 	}
-	return h.waitFor(c, "pingresp", func() bool { return c.pingResp > n })
+	n := c.pingSent
+	return h.waitFor(c, "pingresp", func() bool { return c.pingResp >= n })
 }
 
 // supersededTeardownAfter tells whether an older connection of the contested
@@ -1775,6 +1808,10 @@ func (h *c16H) final() {
 	case cl.statusFlag == Disconnected:
 		r.Violate(h.killClass("C16.survivor-disconnected"), "the surviving connection is registered but marked disconnected. %s\n%s", ctx(), h.history())
 	}
+	if cl == nil || c16ConnID(cl) != S.cid || cl.statusFlag == Disconnected {
+		// everything below would only list consequences of the lost registration
+		return
+	}
 	// F2 session entry
 	if cl != nil {
 		v, ok := h.b.sessMgr.sessionMap.Load(c16ID)
@@ -1822,21 +1859,29 @@ func (h *c16H) final() {
 		switch {
 		case !sessHas(f) && inh && h.sc.Store.Async:
 			return "C16.reconnect.subscription-not-restored.store-lag"
-		case !sessHas(f) && inh && h.takeoverTeardown() && h.brokerDeleted():
+		case !sessHas(f) && inh && h.unregisteredDeleted():
+			// a connection that was not registered any more (second teardown of
+			// one connection through its write loop, or a connection unregistered
+			// by the delete watch) ran the clean-up and deleted the stored session
+			// of a later connection
+			return "C16.stale-teardown.stored-session-deleted"
+		case !sessHas(f) && inh && h.takeoverTeardown() && h.supersededDeleted():
 			return "C16.takeover.stored-session-deleted"
+		case !sessHas(f) && inh && !h.st.lossy && h.storedHistory(f, true) == "lag" && len(h.st.putLog) > 0:
+			// the snapshot with the subscription had not reached the store yet
+			// when the session was looked up there (SUBACK precedes persistence)
+			return "C16.reconnect.subscription-not-restored.store-lag"
+		case !sessHas(f) && inh && !h.st.lossy && h.storedHistory(f, true) == "stale" && h.supInflight:
+			// a packet of the superseded connection was processed after the
+			// takeover and stored its old session over the successor's
+			return "C16.takeover.old-connection-overwrote-session"
 		case !sessHas(f) && inh && !h.st.lossy && h.storedHistory(f, true) == "stale":
 			// the store had the subscription and an older snapshot overwrote it
 			// (the snapshots of Session.store travel in goroutines of their own
 			// and may reach the storage in another order than they were taken)
 			return "C16.stored-session-stale"
 		case !sessHas(f) && inh && h.supInflight:
-			// a packet of the superseded connection was processed after the
-			// takeover and stored its old session over the successor's
 			return "C16.takeover.old-connection-overwrote-session"
-		case !sessHas(f) && inh && !h.st.lossy && h.storedHistory(f, true) == "lag":
-			// the snapshot with the subscription had not reached the store yet
-			// when the session was looked up there (SUBACK precedes persistence)
-			return "C16.reconnect.subscription-not-restored.store-lag"
 		case !sessHas(f) && inh:
 			return "C16.reconnect.subscription-not-restored" + lag()
 		case h.takeoverTeardown() && blackbox:
@@ -1916,7 +1961,7 @@ func (h *c16H) final() {
 			cls := "C16.discarded-session-still-delivers"
 			if inSession {
 				cls = "C16.reconnect.stale-session-restored" + lag()
-				if !h.sc.Store.Async && !h.st.lossy && !h.supInflight {
+				if !h.sc.Store.Async && !h.st.lossy {
 					for _, f := range stale {
 						switch h.storedHistory(f, false) {
 						case "stale":
